@@ -15,6 +15,19 @@ SPEC = dict(
          'library writes has 2x8 guard cells inside its allocation, every read-only argument is an exact-size malloc block (ASan) and is '
          'compared with a snapshot after the call. Exact-failure classes (pivot exactly 0 / <= 0 in floating point by construction) must '
          'report failure, exactly factorable classes must report success; other inputs are judged only when success is reported. '
+         'Extreme-scaling ("xscale") classes: PLU D1*B*D2 with rows and/or columns of a well-conditioned dense / small-integer B scaled by '
+         '2^e, e spread over +-960 (rows or columns) or +-480 (both), a global scaling that puts the largest entry next to DBL_MAX or the '
+         'smallest next to DBL_MIN, huge rows over tiny columns whose multipliers underflow to exactly 0 by construction, and exact '
+         'permutation / diagonal / triangular matrices with entries anywhere in the normal range (these and the diagonal LDL/LLT ones must '
+         'succeed); LDL/LLT D*B*D with B SPD (B^T B + dI, integer L0 L0^T, or diagonally dominant with off-diagonals down to the bottom of '
+         'the normal range) resp. symmetric indefinite, |e| <= 480, and the same global scalings. Every input entry is finite and '
+         'normal-or-zero; half of the right-hand sides are scaled by 2^+-1000 as well. On these classes a failure report is accepted, a '
+         'non-finite factor / solution / inverse is counted (<fam>-xscale-overflow-skipped) and skipped, and on success with finite results '
+         'the same shape clauses and bounds are judged. Every bound carries the a-priori underflow term (eta = 2^-1074 absolute error per '
+         'product and per quotient, derivation in the harness header): reconstruction entry (r,c) + eta*(min(r,c) + [r>c]|u_cc|) for PLU, '
+         '+ eta*(sum_{i<c}(|d_i|+1) + [r>c]|d_c|) for LDL, + eta*(c + [r>c]|l_cc|) for LLT; sweeps + eta*r (unit lower), '
+         '+ eta*(r+|l_rr|), + eta*(n-1-r+|pivot_r|), + eta*|d_r|(n-r) (D L^T); solve / inverse column row r '
+         '+ sum_c E(r,c)|x_c| + sum_{k<=r}|L_rk| e2_k + e1_r; all times c = 4. '
          'distinct_nontrivial counts distinct (family, n, structure class, success|failure, pivoting-pattern signature) cells in which a '
          'factorization was judged; signature = bit mask of the elimination steps that exchanged rows (PLU, n<=12; number of exchanges '
          'for n>12), bit mask of the negative pivots (LDL, n<=12; their number for n>12), none for LLT - NOT the number of matrices.',
@@ -28,7 +41,11 @@ SPEC = dict(
              'plu-reconstruction-bound', 'ldl-reconstruction-bound', 'llt-reconstruction-bound',
              'plu_apply-equals-b[p[i]]', 'plu_P-is-permutation-matrix-of-p', 'plu_P_-is-transpose-of-P',
              'plu_L-reproduces-unit-lower', 'plu_U-reproduces-upper', 'ldl_L-reproduces-unit-lower', 'ldl_D-reproduces-diagonal',
-             'llt_L-reproduces-lower', 'spd-det-three-methods-agree'] +
+             'llt_L-reproduces-lower', 'spd-det-three-methods-agree',
+             'plu-xscale-multiplier-below-DBL_MIN', 'plu-xscale-multipliers-flush-to-zero-by-construction'] +
+            [f + s for f in _FAM for s in ('-xscale-reconstruction-bound', '-xscale-solve-residual-bound',
+                                           '-xscale-inv-column-residual-bound', '-xscale-overflow-skipped',
+                                           '-xscale-product-underflow-observed')] +
             [f + s for f in _FAM for s in ('_lower-residual-bound', '_upper-residual-bound', '_solve-residual-bound',
                                            '_lower_-residual-bound', '_upper_-residual-bound',
                                            '_lower_-other-columns-untouched', '_upper_-other-columns-untouched',
@@ -46,8 +63,10 @@ SPEC = dict(
         'only executions produced by this run are judged (runtime monitoring, not proof)',
         'gcc 12 / x86-64 LP64 little-endian, A_SIZE_POINTER=8; library rebuilt from /repo working tree with -fsanitize=address,undefined',
         'a_real = double (A_SIZE_REAL=8), round-to-nearest, no FMA contraction; the float and long double builds are not executed',
-        'no overflow/underflow inside the factorization or the sweeps (entries within 2^+-60 of 1, n <= 48); the determinant product is '
-        'judged only while every partial product stays within 2^+-440',
+        'underflow is modelled by the standard gradual-underflow term (absolute error <= 2^-1074 per product / quotient, sums exact), which '
+        'is part of every bound; an overflow (non-finite factor or solution) is accepted only on the xscale classes and on plain LDL^T of '
+        'indefinite matrices, where it is counted and skipped; n <= 48; the determinant product is judged only while every partial '
+        'product stays within 2^+-440',
         'LDL and LLT inputs are exactly symmetric; operands do not alias except where the header says in/out',
         'a_real_plu_P_ is undocumented; it is taken to be the transpose (inverse permutation matrix) of a_real_plu_P',
     ],
@@ -55,7 +74,8 @@ SPEC = dict(
                'bound) and structural (invalid permutation, wrong parity, multiplier > 1, non-positive diagonal, success on an exactly '
                'vanishing pivot, writes outside the arrays), all of them visible from the outputs of one execution; there is no finite input '
                'space to enumerate. So the matrices are drawn from structure classes chosen to drive every branch and index pattern (n = 1..12 '
-               'over all classes repeatedly, random n up to 48: random dense, small integers, rows/columns scaled by 2^+-40, Hilbert-like, '
+               'over all classes repeatedly, random n up to 48: random dense, small integers, rows/columns scaled by 2^+-40 and - with '
+               'underflowing multipliers, products and solution components and overflowing updates - by 2^+-960, Hilbert-like, '
                'nearly dependent rows, an exchange at every step / at the last step only, permutation, triangular and diagonal matrices, '
                'SPD as B^T B + delta I and integer L0 L0^T, symmetric indefinite, integer L0 D0 L0^T, tridiagonal, plus the exact-failure '
                'classes) and each execution is judged against bounds that hold for every correctly rounded implementation irrespective of '
